@@ -47,7 +47,7 @@ CHECKS = {
             "record<->response mapping is positional on fault-free connections; failing application calls are outside the statement",
             "deterministic simulation of the connection + wire-derived oracle for log records"),
     "C03": ("W4-master",
-            "seeded exploration of histories x schedules: the real Arbiter.run() on a simulated kernel under worker deaths, boot failures, TTIN/TTOU/HUP, bursts and signals injected at seeded system-call indices of the master; safety on every event, bounded liveness after the last event, against a reference pool model",
+            "seeded exploration of histories x schedules: the real Arbiter.run() on a simulated kernel under worker deaths, boot failures (application load, post_worker_init hook, timed at the master's next fork), transient fork / heartbeat-file failures, TTIN/TTOU/HUP, bursts and signals injected at seeded system-call indices of the master; safety on every event, bounded liveness after the last event, against a reference pool model",
             "trusts the simulated kernel's POSIX/PEP 475 rules (listed in evidence.assumptions); workers are scripted stubs booted through the real spawn_worker child side + init_process (fork by re-entry on a deep copy)",
             "deterministic simulation with fault injection: seeded histories and schedules against a reference pool model"),
     "C11": ("W4-master",
@@ -55,7 +55,7 @@ CHECKS = {
             "master side with stub workers implementing the heartbeat contract; worker side with the real sync/gthread/gevent/eventlet loops (gevent and eventlet on shims of the primitives they use): maximum notify() gap vs timeout, also while a retired worker drains",
             "deterministic simulation with fault injection on virtual time (timeout scan vs heartbeat patterns)"),
     "C13": ("W3-worker",
-            "seeded exploration of schedules x histories: the real ThreadWorker.run() and handler threads as baton-scheduled simulated threads over a simulated selector/executor/lock, scripted clients, TERM; invariants on every kernel event, bounded liveness outside faults in two keyed regimes",
+            "seeded exploration of schedules x histories: the real ThreadWorker.run() and handler threads as baton-scheduled simulated threads over a simulated selector/executor/lock, scripted clients, TERM; invariants on every kernel event (incl. 'what select() reported is acted upon'), bounded liveness outside faults in two keyed regimes",
             "trusts the SimSelector/SimExecutor/SimRLock contracts (Appendix D); pre-emption at simulated system calls, lock/executor/selector operations and (a third of the runs) at CPython eval-breaker points inside gthread.py via sys.monitoring",
             "deterministic simulation of threads (baton passing) with seeded scheduling and fault injection"),
     "C17": ("W5-pidfile",
@@ -75,7 +75,7 @@ CHECKS = {
             "execvpe model: non-CLOEXEC descriptors survive, environment replaced; systemd socket activation not in these histories",
             "deterministic simulation of two-master histories (fork+exec on the simulated kernel) with event-level invariants"),
     "C18": ("W3-worker",
-            "seeded exploration of max_requests/jitter x sequential and concurrent client load against the real sync/gthread/gevent/eventlet workers (W3) and against the real Arbiter + real workers (W4): counting rule, no accept after the limit, in-flight requests answered, replacement, no refusal",
+            "seeded exploration of max_requests/jitter x sequential and concurrent client load against the real sync/gthread/gevent/eventlet workers (W3) and against the real Arbiter + real workers (W4): counting rule, no accept after the limit (no allowance for the async workers' heartbeat period), in-flight requests answered, replacement, no refusal",
             "keep-alive reuse races are not counted as drops; gevent and eventlet via shims; the counting rule itself is also checked on the real handle() of all three families (W2)",
             "deterministic simulation with seeded scheduling; oracle over the recorded connection history"),
     "C20": ("W4-master",
